@@ -17,6 +17,7 @@ var tiers = map[string][3]int{
 	"C12": {150, 3000, 0},
 	"C11": {800, 8000, 0},
 	"C07": {3000, 40000, 0},
+	"C14": {1500, 30000, 0},
 }
 
 func tierOf(id string, thorough bool) tierCfg {
@@ -55,5 +56,9 @@ func init() {
 	props["C07"] = propCfg{
 		Rule:        "1-3-file workspaces mixing locals, parameters, loop variables, shadowing, closure-only and until-only reads, write-only locals, globals defined in another file / later in the same file, never-defined globals (Undef1, Undef2), built-ins; configuration by client flags (checks 1,2,3,4,17) or by luahelper.json (IgnoreModules, IgnoreErrorTypes). Oracle: reference binder — expected type 2 = reads bound to no local, defined by no file, not built-in, not ignored; type 3 = top-level read whose only definitions are later top-level assignments of the same file; type 4 = never-read locals minus the documented exemptions (function values, _, parameters, loop variables, <close>, library aliases, require results); type 17 = assignment sites of those. Compared as sets of (file, range, type) in both directions. Non-trivial: a workspace with >= 1 expected type 2, >= 1 expected type 4 and >= 1 tempting non-warning (upvalue read or cross-file global); distinct by workspace text + mode.",
 		Assumptions: append([]string{refluaAssume, "don't-care (accepted either way): reads that are operands of and/or/==/~=/not or sit in a condition, reads inside the statement that defines the same global, globals defined both later in the file and in another file, write-only locals that are later assigned a function or library alias"}, commonAssume...),
+	}
+	props["C14"] = propCfg{
+		Rule:        "1-2 files with uniquely named declarations that all share the prefix `ab` (locals, parameters, loop variables, local functions, globals abG1/abG2/abgfun); one statement `local zq = ab` is planted at a random statement boundary of a random block such that the file stays valid (checked with the reference parser); textDocument/completion at the end of `ab`. Oracle: with V = prefix-matching locals visible at the cursor per the reference binder, W = prefix-matching globals defined in the workspace, I = locals declared after the cursor or in a block that does not enclose it: labels must contain V and W and must not contain any member of I. Non-trivial: V and I both non-empty; distinct by workspace text + cursor.",
+		Assumptions: append([]string{refluaAssume, "don't-care: extra fuzzy matches, keywords, snippets, library names, the planted zq itself, locals whose own initialiser contains the cursor"}, commonAssume...),
 	}
 }
